@@ -1,5 +1,206 @@
 package c02
 
+import (
+	"context"
+	"fmt"
+	"os"
+	"path/filepath"
+	"strings"
+	"time"
+
+	ss "verif/mc/specstep"
+	"verif/mc/sys/dqueue"
+	"verif/mc/sys/gcounter"
+	"verif/mc/sys/gotests"
+	"verif/mc/sys/loadbalancer"
+	"verif/mc/sys/proxy"
+	"verif/mc/sys/shcounter"
+	"verif/mc/sys/shopcart"
+	"verif/mc/tlabridge"
+)
+
+// retranslate is a pair.Prepare: it copies /repo/<srcRel> to <dir>/<module>.tla and lets the
+// installed PlusCal translator (`pcal.trans -nocfg`) regenerate the TLA+ translation from the
+// file's own `--algorithm` text, i.e. from the PLUSCAL TRANSLATION block PGo wrote (pcal does not
+// know `--mpcal` and translates the first `--algorithm` it finds).  Used where the TLA+
+// translation checked in below that block is stale (load_balancer.tla, proxy.tla) or absent
+// (compiler tests: the PlusCal PGo is expected to emit is X.tla.expectpcal).  extra = additional
+// modules (an MC module defining operator constants / the state constraint); root = module TLC checks.
+func retranslate(srcRel, module, root string, extra map[string]string) func(dir string) (string, error) {
+	return func(dir string) (string, error) {
+		src, err := os.ReadFile(filepath.Join(repo(), srcRel))
+		if err != nil {
+			return "", err
+		}
+		if err := os.WriteFile(filepath.Join(dir, module+".tla"), src, 0o644); err != nil {
+			return "", err
+		}
+		ctx, cancel := context.WithTimeout(context.Background(), 5*time.Minute)
+		defer cancel()
+		out, err := tlabridge.RunTool(ctx, dir, 5*time.Minute, "pcal.trans", "-nocfg", module+".tla")
+		if err != nil || !strings.Contains(out, "Translation completed") {
+			return "", fmt.Errorf("pcal %s: %v\n%s", srcRel, err, out)
+		}
+		for n, txt := range extra {
+			if err := os.WriteFile(filepath.Join(dir, n), []byte(txt), 0o644); err != nil {
+				return "", err
+			}
+		}
+		return root, nil
+	}
+}
+
+func tlaBool(b bool) string {
+	if b {
+		return "TRUE"
+	}
+	return "FALSE"
+}
+
 // morePairs lists the spec/Go pairs of the remaining systems and of the compiler's test programs
 // (owned by the author of the C16 system models).
-func morePairs() []*pair { return nil }
+func morePairs() []*pair {
+	var out []*pair
+
+	// ---- dqueue (checked-in translation is current) ----
+	for _, c := range []struct {
+		cons, buf int
+		quick     bool
+	}{{2, 2, true}, {3, 3, false}, {3, 1, false}} {
+		cfg := dqueue.Config{NumConsumers: c.cons, BufferSize: c.buf}
+		out = append(out, &pair{
+			Name: fmt.Sprintf("dqueue-C%d-B%d", c.cons, c.buf), SpecDir: "systems/dqueue", Module: "dqueue", Quick: c.quick,
+			Cfg: fmt.Sprintf("CONSTANT defaultInitValue = defaultInitValue\nCONSTANT BUFFER_SIZE = %d\nCONSTANT NUM_CONSUMERS = %d\nCONSTANT PRODUCER = 0\nSPECIFICATION Spec\n", c.buf, c.cons),
+			Sys: func() *ss.System { return dqueue.New(cfg) },
+		})
+	}
+
+	// ---- loadbalancer (checked-in TLA+ translation predates the PlusCal block: re-translated) ----
+	for _, c := range []struct {
+		srv, cli, buf int
+		quick         bool
+	}{{2, 1, 1, true}, {2, 2, 2, false}} {
+		cfg := loadbalancer.Config{NumServers: c.srv, NumClients: c.cli, BufferSize: c.buf}
+		out = append(out, &pair{
+			Name: fmt.Sprintf("loadbalancer-S%d-C%d-B%d", c.srv, c.cli, c.buf), SpecDir: "systems/loadbalancer", Module: "load_balancer", Quick: c.quick,
+			Prepare: retranslate("systems/loadbalancer/load_balancer.tla", "load_balancer", "", nil),
+			Cfg: fmt.Sprintf("CONSTANT defaultInitValue = defaultInitValue\nCONSTANT BUFFER_SIZE = %d\nCONSTANT LoadBalancerId = %d\nCONSTANT NUM_SERVERS = %d\nCONSTANT NUM_CLIENTS = %d\nCONSTANT GET_PAGE = %d\nCONSTANT WEB_PAGE = %d\nSPECIFICATION Spec\n",
+				c.buf, loadbalancer.LoadBalancerID, c.srv, c.cli, loadbalancer.GetPage, loadbalancer.WebPage),
+			Sys:        func() *ss.System { return loadbalancer.New(cfg) },
+			Rename:     map[string]string{"AServer.msg": "msg0"},
+			ScalarArch: map[string]bool{"ALoadBalancer": true},
+		})
+	}
+
+	// ---- proxy ----
+	proxyCfg := func(c proxy.Config, constraint bool) string {
+		s := fmt.Sprintf("CONSTANT defaultInitValue = defaultInitValue\nCONSTANT NUM_SERVERS = %d\nCONSTANT NUM_CLIENTS = %d\nCONSTANT EXPLORE_FAIL = %s\nCONSTANT CLIENT_RUN = %s\nSPECIFICATION Spec\n",
+			c.NumServers, c.NumClients, tlaBool(c.ExploreFail), tlaBool(c.ClientRun))
+		if constraint {
+			s += "CONSTRAINT MCConstraint\n"
+		}
+		return s
+	}
+	proxyRename := map[string]string{"AServer.msg": "msg0", "AServer.resp": "resp0", "AClient.resp": "resp1"}
+	// (a) the checked-in TLA+ translation as it is: PerfectFD, input = self (no Requests macro)
+	for _, c := range []struct {
+		srv, cli int
+		quick    bool
+	}{{2, 1, true}, {2, 2, false}} {
+		cfg := proxy.Config{NumServers: c.srv, NumClients: c.cli, ExploreFail: true, ClientRun: true, PerfectFD: true}
+		out = append(out, &pair{
+			Name: fmt.Sprintf("proxy-checkedin-S%d-C%d", c.srv, c.cli), SpecDir: "systems/proxy", Module: "proxy", Quick: c.quick,
+			Cfg: proxyCfg(cfg, false), Sys: func() *ss.System { return proxy.New(cfg) },
+			Rename: proxyRename, ScalarArch: map[string]bool{"AProxy": true},
+		})
+	}
+	// (b) what pcal makes of the spec's current PLUSCAL TRANSLATION block: PracticalFD + Requests
+	// (an unbounded request counter, bounded here by a state constraint on both sides)
+	for _, c := range []struct {
+		srv, cli, maxIn int
+		quick           bool
+	}{{2, 1, 1, false}, {2, 1, 2, false}} {
+		cfg := proxy.Config{NumServers: c.srv, NumClients: c.cli, ExploreFail: true, ClientRun: true, Requests: true, MaxInput: c.maxIn}
+		mc := fmt.Sprintf("---- MODULE MCproxy ----\nEXTENDS proxy\nMCConstraint == \\A c \\in CLIENT_SET : input[c] <= %d\n====\n", c.maxIn)
+		out = append(out, &pair{
+			Name: fmt.Sprintf("proxy-S%d-C%d-in%d", c.srv, c.cli, c.maxIn), SpecDir: "systems/proxy", Module: "proxy", Quick: c.quick,
+			Prepare: retranslate("systems/proxy/proxy.tla", "proxy", "MCproxy", map[string]string{"MCproxy.tla": mc}),
+			Cfg:     proxyCfg(cfg, true), Sys: func() *ss.System { return proxy.New(cfg) }, Constraint: cfg.Constraint,
+			Rename: proxyRename, ScalarArch: map[string]bool{"AProxy": true},
+		})
+	}
+
+	// ---- shcounter (translation current; cntr unmapped) ----
+	for _, n := range []int{2, 3, 4} {
+		cfg := shcounter.Config{NumNodes: n}
+		out = append(out, &pair{
+			Name: fmt.Sprintf("shcounter-N%d", n), SpecDir: "systems/shcounter", Module: "shcounter", Quick: n == 3,
+			Cfg: fmt.Sprintf("CONSTANT NUM_NODES = %d\nSPECIFICATION Spec\n", n),
+			Sys: func() *ss.System { return shcounter.New(cfg) },
+		})
+	}
+
+	// ---- gcounter (translation current; LocalGCntr/CasualHistory macros + the spec's merge process) ----
+	for _, n := range []int{2, 3} {
+		cfg := gcounter.Config{NumNodes: n}
+		out = append(out, &pair{
+			Name: fmt.Sprintf("gcounter-N%d", n), SpecDir: "systems/gcounter", Module: "gcounter", Quick: n == 2,
+			Cfg: fmt.Sprintf("CONSTANT defaultInitValue = defaultInitValue\nCONSTANT NUM_NODES = %d\nCONSTANT BENCH_NUM_ROUNDS = 0\nSPECIFICATION Spec\n", n),
+			Sys: func() *ss.System { return gcounter.New(cfg) }, ScalarArch: map[string]bool{"UpdateGCntr": true},
+		})
+	}
+
+	// ---- shopcart (translation current; AWORSet macro + the spec's merge process; ANodeBench instance) ----
+	for _, c := range []struct {
+		n, rounds int
+		quick     bool
+	}{{2, 1, true}, {2, 2, false}, {3, 1, false}} {
+		cfg := shopcart.Config{NumNodes: c.n, BenchNumRounds: c.rounds}
+		var el []string
+		for _, e := range cfg.ElemSet() {
+			el = append(el, fmt.Sprint(e))
+		}
+		out = append(out, &pair{
+			Name: fmt.Sprintf("shopcart-N%d-R%d", c.n, c.rounds), SpecDir: "systems/shopcart", Module: "shopcart", Quick: c.quick,
+			Cfg: fmt.Sprintf("CONSTANT defaultInitValue = defaultInitValue\nCONSTANT NumNodes = %d\nCONSTANT BenchNumRounds = %d\nCONSTANT ElemSet = {%s}\nSPECIFICATION Spec\n", c.n, c.rounds, strings.Join(el, ", ")),
+			Sys: func() *ss.System { return shopcart.New(cfg) }, ScalarArch: map[string]bool{"UpdateCRDT": true},
+		})
+	}
+	// ---- compiler test programs: X.tla.expectpcal (the PlusCal PGo must emit) translated by pcal ----
+	const gen = "pgo/test/files/general/"
+	dflt := "CONSTANT defaultInitValue = defaultInitValue\n"
+	out = append(out,
+		&pair{Name: "gotests-hello", SpecDir: gen, Module: "hello", Quick: true,
+			Prepare: retranslate(gen+"hello.tla.expectpcal", "hello", "MChello", map[string]string{
+				"MChello.tla": "---- MODULE MChello ----\nEXTENDS hello\nMCMkHello(a, b) == a \\o b\n====\n"}),
+			Cfg: dflt + "CONSTANT MK_HELLO <- MCMkHello\nSPECIFICATION Spec\n",
+			Sys: gotests.Hello, ScalarArch: map[string]bool{"AHello": true}},
+		// procedure `inc`: the spec's stack / parameter variables have no comparable Go image (C04 covers
+		// call/return); pc, value and out are compared.
+		&pair{Name: "gotests-bug_119", SpecDir: gen, Module: "test", Quick: true,
+			Prepare: retranslate(gen+"bug_119.tla.expectpcal", "test", "", nil),
+			Cfg:     dflt + "SPECIFICATION Spec\n",
+			Sys:     gotests.Bug119, ScalarArch: map[string]bool{"Counter": true},
+			Rename: map[string]string{"inc.self_": "-", "inc.counter": "-"}, SkipSpecVars: []string{"stack", "self_"}},
+		&pair{Name: "gotests-bug2_124", SpecDir: gen, Module: "bug2", Quick: true,
+			Prepare: retranslate(gen+"bug2_124.tla.expectpcal", "bug2", "", nil),
+			Cfg:     dflt + "CONSTANT NUM_NODES = 2\nCONSTANT BUFFER_SIZE = 1\nSPECIFICATION Spec\n",
+			Sys:     func() *ss.System { return gotests.Bug2(2, 1) }},
+		&pair{Name: "gotests-PBFail4_bug125", SpecDir: gen, Module: "PBFail4", Quick: false,
+			Prepare: retranslate(gen+"PBFail4_bug125.tla.expectpcal", "PBFail4", "", nil),
+			Cfg:     dflt + "CONSTANT BUFFER_SIZE = 2\nCONSTANT NUM_REPLICAS = 2\nCONSTANT NUM_CLIENTS = 1\nCONSTANT EXPLORE_FAIL = FALSE\nSPECIFICATION Spec\n",
+			Sys:     func() *ss.System { return gotests.PBFail4(2, 1, 2) },
+			Rename:  map[string]string{"AClient.resp": "resp0", "AClient.idx": "idx0"}},
+		&pair{Name: "gotests-IndexingLocals", SpecDir: gen, Module: "IndexingLocals", Quick: true,
+			Prepare: retranslate(gen+"IndexingLocals.tla.expectpcal", "IndexingLocals", "", nil),
+			Cfg:     dflt + "SPECIFICATION Spec\n", Sys: gotests.IndexingLocals},
+		// AComplex's final assertion fails when `mark` misses an element after 20 rounds; TLC stops at the
+		// first failing Assert, so those states are excluded from expansion on both sides (constraint).
+		&pair{Name: "gotests-NonDetExploration", SpecDir: gen, Module: "NonDetExploration", Quick: false,
+			Prepare: retranslate(gen+"NonDetExploration.tla.expectpcal", "NonDetExploration", "MCNonDet", map[string]string{
+				"MCNonDet.tla": "---- MODULE MCNonDet ----\nEXTENDS NonDetExploration\nMCConstraint == ~(pc[3] = \"loop\" /\\ i = 20 /\\ mark # TheSet)\n====\n"}),
+			Cfg: "SPECIFICATION Spec\nCONSTRAINT MCConstraint\n", Sys: gotests.NonDet, Constraint: gotests.NonDetConstraint,
+			ScalarArch: map[string]bool{"ACoverage": true, "ACoincidence": true, "AComplex": true}},
+	)
+	return out
+}
